@@ -17,6 +17,7 @@ Record facts := {
   k_leftover_is_limit_minus_used : bool;              (* EthereumTx: msg.Gas() - resp.GasUsed when positive *)
   k_refund_price_is_effective_price : bool;           (* EffectiveGasPriceWeiPerGas(base fee) *)
   k_sync_only_evm_addresses : bool;                    (* SyncStateDBWithAccount returns early unless len(address) = 20 *)
+  k_journal_before_flush : bool;                       (* precompile.OnRunStart: SavePrecompileCalledJournalChange precedes CommitCacheCtx *)
   k_refund_cap_applied : bool                         (* gasToRefund(GetRefund(), gasUsed), gasUsed / RefundQuotientEIP3529 *)
 }.
 
@@ -25,7 +26,7 @@ Definition facts_ok (f : facts) : bool :=
   k_fee_is_native_of_effective_fee f && k_fee_deducted_from_signer f &&
   k_refund_is_native_of_leftover_times_price f && k_refund_from_fee_collector f && k_refund_to_sender f &&
   k_leftover_is_limit_minus_used f && k_refund_price_is_effective_price f &&
-  k_sync_only_evm_addresses f.
+  k_sync_only_evm_addresses f && k_journal_before_flush f.
 
 (** informational only (how GasUsed itself is computed belongs to C03, the payment is exact for whatever GasUsed is
     reported): the EIP-3529 cap min(counter, gasUsed / quotient) is applied *)
